@@ -2296,7 +2296,12 @@ impl<'a, E: quiver_core::effects::Effect> Compiler<'a, E> {
             // non-last branch whose condition was purely nil), abandon the table.
             if let Some(d) = &mut dispatch {
                 match branch_guard {
-                    Some(guard) if branch_types.len() == branch_types_before + 1 => {
+                    // A branch whose result is never (it ends in a tail call) says nothing about
+                    // the value a call yields for its guard, so no table can be built.
+                    Some(guard)
+                        if branch_types.len() == branch_types_before + 1
+                            && !self.is_never(branch_types[branch_types_before]) =>
+                    {
                         d.branches.push((guard, branch_types[branch_types_before]));
                     }
                     _ => d.valid = false,
